@@ -71,6 +71,8 @@ def run(sid, tier="quick", props=None):
         sh("git -C /repo checkout -- .")
         assert sh("git -C /repo status --porcelain").stdout.strip() == ""
         sh(["/venv/bin/python", str(V / "harness/extract.py")])      # Generated/*.lean back to the unchanged tree
+        for p in props:          # the evidence file now describes the PATCHED tree: put the committed one (a run on the unchanged tree) back
+            sh(f"git -C {V} checkout -- evidence/{p}.json")
     if failing is not None:
         # keep the failing input as a regression case if it is well-formed for the module and passes on the unchanged tree
         (d / "failing.json").write_text(json.dumps(failing, indent=1, ensure_ascii=False) + "\n")
